@@ -117,14 +117,23 @@ Definition store_info (st0 : istate) : res istate :=
       end
   end.
 
+(* white space of the BYTES methods (bytes.split(), bytes.strip()): TAB LF VT FF CR and
+   space only -- unlike str.split(), FS GS RS US (28..31) do not separate *)
+Definition is_bspace (c : ascii) : bool :=
+  ((9 <=? code c)%N && (code c <=? 13)%N) || (code c =? 32)%N.
+Fixpoint lstrip_bspace (x : str) : str :=
+  match x with
+  | c :: t => if is_bspace c then lstrip_bspace t else x
+  | [] => []
+  end.
 (* bytes.split()[0]: first maximal run of non-whitespace bytes *)
 Definition first_word (x : str) : option str :=
-  let y := lstrip_space x in
+  let y := lstrip_bspace x in
   match y with
   | [] => None
   | _ => Some (fst ((fix tw (l : str) : str * str :=
                        match l with
-                       | c :: t => if is_space c then ([], l) else let '(a, b) := tw t in (c :: a, b)
+                       | c :: t => if is_bspace c then ([], l) else let '(a, b) := tw t in (c :: a, b)
                        | [] => ([], [])
                        end) y))
   end.
